@@ -24,12 +24,12 @@ structure Lvl (K : Type) where
   s : EF K
   e : EF K
 
-def EF.sub (a b : EF K) : EF K :=
+def EF.minus (a b : EF K) : EF K :=
   ⟨fun i j k => a.x i j k - b.x i j k, fun i j k => a.y i j k - b.y i j k,
    fun i j k => a.z i j k - b.z i j k⟩
 
 /-- `solver.residual`: a copy of the source from which `core.amat_x` subtracts `A e` -/
-def residual (g : Grid K) (m : VM K) (s e : EF K) : EF K := matEF g (s.sub (amat g m e))
+def residual (g : Grid K) (m : VM K) (s e : EF K) : EF K := matEF g (s.minus (amat g m e))
 
 /-- tabulate cell quantities (extensionally the identity) -/
 def matVM (g : Grid K) (m : VM K) : VM K :=
